@@ -100,6 +100,16 @@ fn outer(db: &TestDb) -> u8 {
 }
 
 #[memo(raw)]
+fn tsum_l(db: &TestDb) -> u8 {
+    run_body(db, "tsumL", None)
+}
+
+#[memo(raw)]
+fn outer_l(db: &TestDb) -> u8 {
+    run_body(db, "outerL", None)
+}
+
+#[memo(raw)]
 fn by_key(db: &TestDb, k: u8) -> u8 {
     run_body(db, &format!("byKey:{k}"), None)
 }
@@ -236,6 +246,8 @@ fn call_node(db: &TestDb, n: &str, memo_arg: Option<MemoRef<u8>>) -> (u8, Option
         "top" => top(db),
         "tsum" => tsum(db),
         "outer" => outer(db),
+        "tsumL" => tsum_l(db),
+        "outerL" => outer_l(db),
         "byKey:0" => by_key(db, 0),
         "byKey:1" => by_key(db, 1),
         "byRef:x" => by_ref(db, &"x".to_string()),
@@ -317,6 +329,20 @@ fn eval(db: &TestDb, e: &Value, f: &mut Frame) -> i64 {
                 let v = db.get(id).v as i64;
                 f.ins.push(json!(["src", k, v]));
                 sum += v;
+            }
+            sum
+        }
+        "tsumL" => {
+            // the memoized per-key function under a tracked map (isograph: parse_iso_literal_in_source per file)
+            f.ins.push(json!(["src", "C", 0]));
+            let mut sum = 0i64;
+            let ids: Vec<&'static str> = db.get_map().tracked().0.iter().map(|(k, _)| *k).collect();
+            for k in ids {
+                let m = format!("leaf:{k}");
+                let (v, _) = call_node(db, &m, None);
+                f.ins.push(json!(["fn", m, v]));
+                log(json!({"e": "ret", "n": m, "v": v}));
+                sum += v as i64;
             }
             sum
         }
